@@ -38,6 +38,7 @@ theorem inv_step (s : State) (m : Move) (h : Inv s) (ha : assumed s m = true) : 
   | deletePod ns name => exact inv_deletePod s ns name h
   | finishPod ns name => exact inv_finishPod s ns name h
   | runPod ns name => exact inv_runPod s ns name h
+  | markTerminating ns name fault => exact (markTerminating_spec s ns name fault h).1
   | scale kind ns app n => exact (inv_truth_simple s h).1 kind ns app n
   | deleteApp kind ns app => exact (inv_truth_simple s h).2.1 kind ns app
   | setPool name size => exact (inv_truth_simple s h).2.2 name size
@@ -160,6 +161,7 @@ theorem unassign_step (s : State) (m : Move) (h : Inv s) (ha : assumed s m = tru
     apply UnassignsWithin.of_plog_eq; simp only [step]; split
     · rfl
     · split <;> rfl
+  | markTerminating ns name fault => exact UnassignsWithin.of_plog_eq _ (markTerminating_spec s ns name fault h).2.1
   | scale kind ns app n => exact UnassignsWithin.of_plog_eq _ rfl
   | deleteApp kind ns app => exact UnassignsWithin.of_plog_eq _ rfl
   | setPool name size => apply UnassignsWithin.of_plog_eq; simp only [step]; cases size <;> rfl
